@@ -141,11 +141,19 @@ Section Refine.
   Lemma type_inst v : abc_instance TType (class_of v) = true -> exists d, v = VClass d.
   Proof. destruct v; simpl; try discriminate; eauto. Qed.
 
+  Lemma has_required_of_tables a : has_required_tables cfg a = true -> has_required cfg a = true.
+  Proof.
+    intro H. unfold has_required.
+    destruct a; try exact H.
+    - destruct sp; try exact H. destruct o; try exact H. destruct args; try exact H. now rewrite H, orb_true_r.
+    - destruct sp; try exact H. now rewrite H, orb_true_r.
+  Qed.
+
   Lemma has_required_generic o args :
     In o vocab_names -> arity_ok o (List.length args) = true ->
     has_required cfg (AGeneric SpTyping o args) = true.
   Proof.
-    intros Hin Ha. unfold has_required. cbn [ann_name n_type_args].
+    intros Hin Ha. apply has_required_of_tables. unfold has_required_tables. cbn [ann_name n_type_args].
     unfold arity_ok in Ha.
     apply req_lo; [assumption | |]; unfold lo; destruct (origin_kind o) eqn:Ek; try discriminate Ha;
       try (apply Nat.eqb_eq in Ha; rewrite Ha; first [lia | right; reflexivity]);
@@ -162,13 +170,13 @@ Section Refine.
   (* ---- has_required on the vocabulary ---------------------------------------------------------- *)
   Lemma has_required_any : has_required cfg AAny = true.
   Proof.
-    unfold has_required. cbn [ann_name n_type_args].
+    apply has_required_of_tables. unfold has_required_tables. cbn [ann_name n_type_args].
     apply (req_lo TAny 0); [cbn; tauto | cbn; lia | right; reflexivity].
   Qed.
 
   Lemma has_required_callable ps r : has_required cfg (ACallable ps r) = true.
   Proof.
-    unfold has_required. cbn [ann_name n_type_args].
+    apply has_required_of_tables. unfold has_required_tables. cbn [ann_name n_type_args].
     apply (req_lo TCallable 2); [cbn; tauto | cbn; lia | right; reflexivity].
   Qed.
 
@@ -177,7 +185,7 @@ Section Refine.
 
   Lemma has_required_union sp args : has_required cfg (AUnion sp args) = true.
   Proof.
-    unfold has_required. destruct sp; cbn [ann_name n_type_args]; [|reflexivity].
+    apply has_required_of_tables. unfold has_required_tables. destruct sp; cbn [ann_name n_type_args]; [|reflexivity].
     destruct (is_optional args) eqn:E; [|reflexivity].
     rewrite (is_optional_len args E).
     apply (req_lo TOptional 2); [cbn; tauto | cbn; lia | right; reflexivity].
@@ -185,7 +193,7 @@ Section Refine.
 
   Lemma has_required_tuplevar e : has_required cfg (ATupleVar SpTyping e) = true.
   Proof.
-    unfold has_required. cbn [ann_name n_type_args].
+    apply has_required_of_tables. unfold has_required_tables. cbn [ann_name n_type_args].
     apply (req_lo TTuple 2); [cbn; tauto | cbn; lia | left; reflexivity].
   Qed.
 
@@ -240,8 +248,9 @@ Section Refine.
     - (* ACls *) cbn [conv_ok]. cbn [supported_in] in Hs. unfold plain_cls_ok in Hs.
       apply andb_true_iff in Hs as [Hb _]. apply negb_true_iff in Hb. now rewrite (in_conv_bare_false c Hb).
     - (* AGeneric *)
-      destruct sp; [reflexivity|]. cbn [supported_in] in Hs.
+      cbn [supported_in] in Hs.
       apply andb_true_iff in Hs as [Hs Hargs]. apply andb_true_iff in Hs as [Har Hsp].
+      destruct sp; [reflexivity | | discriminate Hsp].
       cbn [conv_ok].
       assert (Horig : existsb (tname_eqb o) (conv_origins cfg) = true).
       { apply (gf_conv_origins cfg good). destruct o; try discriminate Hsp; cbn; tauto. }
@@ -261,7 +270,10 @@ Section Refine.
           rewrite (Hx H1). apply IHa; assumption. }
         rewrite Hgo. reflexivity.
     - (* ATupleVar *)
-      destruct sp; [reflexivity|]. cbn [supported_in] in Hs. cbn [conv_ok]. rewrite (IHa Hs).
+      cbn [supported_in] in Hs. destruct sp; [reflexivity | | discriminate Hs]. cbn [is_abc negb andb] in Hs. cbn [conv_ok]. rewrite (IHa Hs).
+      rewrite (gf_conv_origins cfg good TTuple); [reflexivity | cbn; tauto].
+    - (* ATupleEmpty *)
+      destruct sp; [reflexivity | | discriminate Hs]. cbn [conv_ok].
       rewrite (gf_conv_origins cfg good TTuple); [reflexivity | cbn; tauto].
   Qed.
 
@@ -354,7 +366,7 @@ Section Refine.
     induction a as [ | c | | sp args IHargs | vals | s IHs | n | n | sp o args IHargs | sp e IHe | sp | o | ps r IHps IHr | t | k]
       using ann_ind'; intros Hs v tv; try discriminate Hs.
     - (* ACls *)
-      cbn [is_inst]. unfold has_required at 1. cbn [ann_name negb]. cbn [supported_in] in Hs. unfold plain_cls_ok in Hs.
+      cbn [is_inst]. unfold has_required, has_required_tables. cbn [ann_name negb]. cbn [supported_in] in Hs. unfold plain_cls_ok in Hs.
       apply andb_true_iff in Hs as [Hb _]. apply negb_true_iff in Hb.
       unfold inst_cls. rewrite (in_bare_false c Hb). reflexivity.
     - (* AAny *)
@@ -372,13 +384,19 @@ Section Refine.
       destruct sp; [|exact Hu].
       destruct (is_optional args); [rewrite (gf_optional cfg good) | rewrite (gf_union cfg good)]; exact Hu.
     - (* ALiteral *)
-      cbn [is_inst]. unfold has_required at 1. cbn [ann_name negb].
+      cbn [is_inst]. unfold has_required, has_required_tables. cbn [ann_name negb].
       rewrite (gf_literal cfg good), (gf_lit cfg good). reflexivity.
     - (* ANewType *)
-      cbn [supported_in] in Hs. destruct s; try discriminate Hs.
-      cbn [is_inst]. unfold has_required at 1. cbn [ann_name negb]. reflexivity.
+      cbn [supported_in] in Hs.
+      assert (Heq : forall s0, is_inst cfg ctx hook (ANewType s0) v tv =
+                match s0 with
+                | ACls c => (Ok (isinstance v c), tv)
+                | _ => if newtype_recurses cfg then is_inst cfg ctx hook s0 v tv else (Raise TypeErrorC, tv)
+                end) by (intro s0; destruct s0; reflexivity).
+      rewrite Heq, (gf_newtype cfg good).
+      destruct s; try discriminate Hs; try reflexivity; cbn [chk]; apply IHs; exact Hs.
     - (* AFwdRef *)
-      cbn [supported_in] in Hs. cbn [is_inst chk]. unfold has_required at 1. cbn [ann_name negb].
+      cbn [supported_in] in Hs. cbn [is_inst chk]. unfold has_required, has_required_tables. cbn [ann_name negb].
       destruct (ctx n) as [c|]; [|discriminate Hs]. unfold plain_cls_ok in Hs.
       apply andb_true_iff in Hs as [Hb _]. apply negb_true_iff in Hb.
       unfold inst_cls. rewrite (in_bare_false c Hb). reflexivity.
@@ -396,13 +414,31 @@ Section Refine.
       + rewrite (has_required_generic o args); [| | exact Har].
         * cbn [negb]. apply Hg.
         * apply kelems_vocab. unfold arity_ok in Har. destruct (origin_kind o); discriminate.
-      + unfold has_required at 1. cbn [ann_name negb]. rewrite Hconv. apply Hg.
+      + unfold has_required, has_required_tables. cbn [ann_name negb]. rewrite Hconv. apply Hg.
+      + discriminate Hsp.
     - (* ATupleVar *)
       pose proof (conv_ok_supported _ Hs) as Hconv. cbn [supported_in] in Hs.
+      apply andb_true_iff in Hs as [Hsp Hs].
       pose proof (tuple_var_pure (fun x => is_inst cfg ctx hook x) e (fun v0 tv0 => IHe Hs v0 tv0)) as Ht.
       cbn [is_inst]. destruct sp.
       + rewrite has_required_tuplevar. cbn [negb]. apply Ht.
-      + unfold has_required at 1. cbn [ann_name negb]. rewrite Hconv. apply Ht.
+      + unfold has_required, has_required_tables. cbn [ann_name negb]. rewrite Hconv. apply Ht.
+      + discriminate Hsp.
+    - (* ATupleEmpty *)
+      pose proof (conv_ok_supported _ Hs) as Hconv.
+      assert (Hg : generic_f cfg (fun x => is_inst cfg ctx hook x) TTuple [] v tv = (Ok (chk cfg ctx (ATupleEmpty sp) v), tv)).
+      { unfold generic_f. unfold has_required at 1. rewrite (gf_tuple_empty cfg good). cbn [orb negb].
+        pose proof (gf_kind cfg good TTuple ltac:(cbn; tauto)) as Hkind. unfold kind_ok in Hkind. cbn [origin_kind] in Hkind.
+        destruct (origin_checker cfg TTuple) as [[]|]; try discriminate Hkind.
+        destruct (abc_instance TTuple (class_of v)) eqn:Eabc; cbn [negb].
+        - destruct (tuple_inst v Eabc) as [vs ->]. rewrite (gf_len cfg good). cbn [andb chk].
+          destruct vs; cbn [List.length Nat.eqb negb]; [|reflexivity].
+          cbn [zip_f]. rewrite (gf_zip cfg good). reflexivity.
+        - destruct v; try reflexivity. discriminate Eabc. }
+      cbn [is_inst]. destruct sp.
+      + unfold has_required at 1. rewrite (gf_tuple_empty cfg good). cbn [orb negb]. exact Hg.
+      + unfold has_required, has_required_tables. cbn [ann_name negb]. rewrite Hconv. exact Hg.
+      + discriminate Hs.
     - (* ACallable *)
       cbn [supported_in] in Hs. apply andb_true_iff in Hs as [Hr Hps].
       cbn [is_inst]. rewrite has_required_callable, (gf_callable cfg good). cbn [negb chk].
